@@ -22,9 +22,11 @@ use serde::{Deserialize, Serialize};
 use std::cell::RefCell;
 use std::collections::HashMap;
 
-/// Base of the fake clock (ms).  One abstract tick is `TICK_MS`.
+/// Base of the fake clock (ms).  The clock of the traces counts seconds (`TICK_MS`); the drivers advance it in
+/// steps of `STEP_SECS` (`Sim::advance`) or by an exact number of seconds (`Sim::advance_secs`).
 pub const T0: u64 = 1_700_000_000_000;
-pub const TICK_MS: u64 = 30_000;
+pub const TICK_MS: u64 = 1_000;
+pub const STEP_SECS: u64 = 30;
 
 #[derive(Clone, Debug, Serialize, Deserialize, PartialEq, Eq)]
 pub struct WScript {
